@@ -15,8 +15,25 @@ func (op *FsTxn) commitWait(wait bool) bool {
 	verifHook("precommit", op, 0)
 	ok := op.Atxn.Op.CommitWait(wait)
 	verifHook("committed", op, 0)
+	if !ok {
+		// nothing was logged: undo the in-memory effects like an abort
+		op.dropInodes()
+		op.releaseInodes()
+		op.Atxn.PostAbort()
+		return false
+	}
 	op.postCommit()
 	return ok
+}
+
+// dropInodes forgets the cached copies of the inodes this transaction has
+// locked. Its writes are being discarded, so the cached inodes (block
+// pointers, sizes, link counts, name caches) may be ahead of the journal; the
+// next user re-reads them.
+func (op *FsTxn) dropInodes() {
+	for inum := range op.inodes {
+		op.Fs.Icache.LookupSlot(uint64(inum)).Obj = nil
+	}
 }
 
 func (op *FsTxn) Commit() bool {
@@ -49,6 +66,9 @@ func (op *FsTxn) CommitFh() bool {
 // buffers that need to be written to log. So, call commit.
 func (op *FsTxn) Abort() bool {
 	verifHook("abort", op, 0)
+	if op.Atxn.Modified() {
+		op.dropInodes()
+	}
 	op.releaseInodes()
 	op.Atxn.PostAbort()
 	return true
